@@ -102,6 +102,8 @@ def eval_xta_case(text_mut, fault, info, diags):
 
 def model_cases(m, rnd):
     """yield (xml_mut, block, text_mut, fault, info, nontrivial, all_texts) for one model"""
+    if rnd.random() < 0.5 and not m.noise.get('extra_labels'):
+        m.noise['extra_labels'] = rnd.randrange(1, 10 ** 6)     # labels that do not go to the grammar before / between the ones that do
     xml = m.xml()
     doc = F.Doc(xml)
     noisy = {}
